@@ -11,10 +11,10 @@ Pairs(d) == SeqsOf({1, 2, 3}, d) \X SeqsOf({1, 2, 3}, d)
 SmallM(RS, FS) == UNION { UNION { {StM(mn[1], mn[2], R, f, cx) : R \in RankProfiles(d, RS), cx \in BOOLEAN, f \in FS} : mn \in Pairs(d) } : d \in 1..2 }
 CanonM(FS) == UNION { { StM(<<2, 3, 2>>, <<3, 1, 2>>, <<1, 2, 3, 1>>, f, cx), StM(<<2, 1, 3>>, <<2, 3, 1>>, <<1, 3, 2, 1>>, f, cx),
                         StM(<<2, 1, 2, 2>>, <<1, 3, 2, 1>>, <<1, 2, 3, 2, 1>>, f, cx) } : f \in FS, cx \in BOOLEAN }
-Q_TS == SmallT({1, 2}, {1}) \cup CanonT({1})
-Q_MS == SmallM({1, 2}, {1}) \cup CanonM({1})
-T_TS == SmallT({1, 2, 3}, {1, 4}) \cup CanonT({1, 4})
-T_MS == SmallM({1, 2, 3}, {1, 4}) \cup CanonM({1, 4})
+Q_TS == SmallT({1, 2}, {1}) \cup CanonT({0, 1})
+Q_MS == SmallM({1, 2}, {1}) \cup CanonM({0, 1})
+T_TS == SmallT({1, 2, 3}, {1, 4}) \cup CanonT({0, 1, 4})
+T_MS == SmallM({1, 2, 3}, {1, 4}) \cup CanonM({0, 1, 4})
 MC_SC == {}
 MC_OPS == {"norm2", "norm", "sum_all", "sum_axes", "dot", "dot_axes", "bilinear"}
 MC_BATCH == {}
